@@ -120,38 +120,8 @@ fn harness_string(k: u8) -> String {
     match k % 3 { 0 => String::new(), 1 => String::from("a"), _ => String::from("\u{e9}") }
 }
 
-// @harness name=propset_write_offsets kind=Bk tier=thorough props=C10,C01,C08 bound="property set with 2 properties: an LpStr (3 harness strings; encoded form any 0..=7 bytes, fixed per string, independent of the UTF-8 length) followed by an I4" desc="PropertySet::write: the section size field equals the number of bytes that follow the section header, every (id, offset) pair points at the type tag of its value (30 for the string, 3 for the integer), values are 4-byte aligned"
-#[kani::proof]
-#[kani::unwind(10)]
-#[kani::stub(alloc::fmt::format, stub_format)]
-#[kani::stub(CodePage::encode, stub_encode_table)]
-fn propset_write_offsets() {
-    init_encode_table();
-    let mut ps = PropertySet::new(OperatingSystem::Win32, 10, [0u8; 16]);
-    ps.properties.insert(2, PropertyValue::LpStr(harness_string(kani::any())));
-    let n: i32 = kani::any();
-    ps.properties.insert(3, PropertyValue::I4(n));
-    let mut buf = [0xEEu8; 112];
-    let left = {
-        let mut w: &mut [u8] = &mut buf;
-        assert!(ps.write(&mut w).is_ok());
-        w.len()
-    };
-    let total = 112 - left;
-    let rd = |o: usize| u32::from_le_bytes([buf[o], buf[o + 1], buf[o + 2], buf[o + 3]]);
-    assert!(rd(44) == 48); // section offset
-    let section_size = rd(48) as usize;
-    assert!(48 + section_size == total);
-    assert!(rd(52) == 2);
-    assert!(rd(56) == 2 && rd(64) == 3);
-    let (o1, o2) = (rd(60) as usize, rd(68) as usize);
-    assert!(o1 % 4 == 0 && o2 % 4 == 0);
-    assert!(o1 == 24);
-    assert!(48 + o2 + 8 == total);
-    assert!(rd(48 + o1) == 30);
-    assert!(rd(48 + o2) == 3);
-    assert!(rd(48 + o2 + 4) as i32 == n);
-}
+// (propset_write_offsets, a bounded harness over the real BTreeMap, needed > 15 min of CBMC and was removed:
+// PropertySet::write is proved in Verus, contracts/serial.vt)
 
 // @harness name=propval_lpstr_size kind=Pc tier=quick props=C10,C01 desc="LpStr: for ANY encoded form of 0..=7 bytes (CodePage::encode stubbed by an arbitrary but fixed byte string per input, so the encoded length is independent of the UTF-8 length) write emits tag 30, length = bytes+1, the bytes, a NUL and zero padding to a multiple of 4 -- and the number of bytes emitted equals encoded_size_including_padding(codepage), the size PropertySet::write uses to compute the offsets of the following properties"
 #[kani::proof]
